@@ -3,6 +3,7 @@ import vlib, mcdrive
 from checks.c06 import replay
 
 ASSUME = [
+    'API tier: every line is posted twice through the real handler, once directly and once the way a trusted bridge posts (X-Bridge-Auth with a configured key, X-Forwarded-For)',
     'POST body sanitising is mirrored (cut at first LF) in the state-machine tier; the API tier checks the mirror against the real handler',
     'a prefix is optional but must be well formed when present (ERROR and the server-to-services burst carry none by protocol); relayed client lines are tied to the sender prefix by C12',
     'text alphabet: CR, NUL, LF, 600-byte multi-byte, 520-byte ASCII, colon-leading, in every echoed position',
@@ -24,7 +25,7 @@ def run(tier):
     if mism and not viols:
         print('HARNESS-OUT-OF-DATE: the sanitiser mirror of the state-machine tier disagrees with the real handlers although every delivered line is well formed: %s' % mism[:3])
         raise SystemExit(3)
-    extra = {'api_tier': {'posts': sum(r['posts'] for r in ra), 'deletes': sum(r['deletes'] for r in ra), 'delivered_lines_checked': sum(r['delivered_lines_checked'] for r in ra),
+    extra = {'api_tier': {'posts': sum(r['posts'] for r in ra), 'posts_via_trusted_bridge': sum(r.get('posts_via_trusted_bridge', 0) for r in ra), 'deletes': sum(r['deletes'] for r in ra), 'delivered_lines_checked': sum(r['delivered_lines_checked'] for r in ra),
                           'posts_changed_by_sanitising': sum(r['posts_changed_by_sanitising'] for r in ra), 'mirror_mismatches': len(mism),
                           'samples': sum([r.get('samples') or [] for r in ra], [])[:3]}}
     mcdrive.run_mc('C15', tier, ['C15'], ASSUME, RULE, pre_violations=viols, extra_cov=extra, t0=t0)
